@@ -300,7 +300,7 @@ func TableParse(lx *Lox, names []string, w []int) bool {
 				return false // malformed table: pops the bottom of the stack
 			}
 			stack = stack[:len(stack)-len(pr.Terms)]
-			next := t.Transitions(stack[len(stack)-1]).Get(pr.Rule)
+			next := GotoOf(t, stack[len(stack)-1], pr.Rule)
 			if next == nil {
 				return false // malformed table: no goto after a reduce
 			}
@@ -308,6 +308,18 @@ func TableParse(lx *Lox, names []string, w []int) bool {
 		}
 	}
 	return false // malformed table: does not terminate
+}
+
+// GotoOf returns the goto of state on rule, or nil when the table has none
+// (lox's TransitionMap.Get panics in that case).
+func GotoOf(t *lr1.ParserTable, st *lr1.ItemSet, rule lr1.Term) *lr1.ItemSet {
+	tm := t.Transitions(st)
+	for _, in := range tm.Inputs() {
+		if in == rule {
+			return tm.Get(in)
+		}
+	}
+	return nil
 }
 
 // LNode is a parse-tree node built by interpreting lox's table.
